@@ -440,6 +440,21 @@ func c02Run(c *vcore.Ctx) *vcore.Violation {
 	var expects []c02expect
 	ncalls := 1 + src.Int(6, "ncalls")
 	for i := 0; i < ncalls; i++ {
+		if i > 0 && src.Bool(1, 4, "chdir_between") {
+			// the program changes its working directory between two calls, by path or through one of its
+			// directory descriptors; chdir/fchdir are not path calls the policy is consulted about (the
+			// filter lets them through untraced), so only the kernel knows
+			if src.Bool(1, 2, "byfd") {
+				fd := 3 + src.Int(2, "chfd")
+				script = append(script, "sys", "81", fmt.Sprint(fd), "0", "0", "0", "0", "0")
+				cwdRel = []string{d3rel, d4rel}[fd-3]
+			} else {
+				cwdRel = f.dirs[src.Int(len(f.dirs), "chdir_to")]
+				script = append(script, "sys", "80", "s:"+filepath.Join(root, cwdRel), "0", "0", "0", "0", "0")
+			}
+			c.Event("chdir")
+			c.Logf("chdir -> %s", cwdRel)
+		}
 		s := gen()
 		calls = append(calls, s)
 		script = append(script, "sys", fmt.Sprint(s.nr))
